@@ -36,7 +36,17 @@ Theorem C36_diff_is_src_to_formatted : forall fmt sb lff fl flagl fs p s r, f_di
 Proof. exact diff_is_src_to_formatted. Qed.
 Print Assumptions C36_diff_is_src_to_formatted.
 
-(* after shfmt -w, shfmt -l lists nothing -- GIVEN that the formatter is idempotent (this hypothesis is
+(* -w combined with any other mode flags (-l, -d): exactly the differing (regular) files are rewritten, with
+   their formatted bytes *)
+Theorem C36_write_iff_differs : forall fmt sb lff fl flagl fs p r,
+  f_write fl = true -> (forall f, In f fs -> fi_isreg f = true) ->
+  (In (EvWrite p r) (fst (run_files fmt sb lff fl flagl fs)) <->
+   exists f, In f fs /\ fi_path f = p /\ skipped sb f = false /\
+             fmt (file_lang sb lff flagl f) (fi_src f) = Ok r /\ r <> fi_src f).
+Proof. exact write_iff_differs. Qed.
+Print Assumptions C36_write_iff_differs.
+
+(* after shfmt -w (alone or together with -l / -d: [flw] is any flag set with -w), shfmt -l lists nothing -- GIVEN that the formatter is idempotent (this hypothesis is
    property C02) and that the formatted bytes are detected as the same language as the source.  Both hypotheses
    are necessary: known findings c02_nonidempotent_input and language_redetected_after_format are the two ways
    the clause fails on the real binary. *)
